@@ -103,3 +103,21 @@ def failed_theorem(vfile, out):
         if t:
             return t.group(1)
     return ""
+
+
+def mapper_atomicity(rep, why):
+    """The sequential model of the mapper stands for the running program only if a lookup and a reload exclude each
+    other as wholes: re-check the generated obligations of Properties/C14_locks.v on the current source."""
+    ok, log = regenerate()
+    if not ok:
+        rep.violation("the access table could not be regenerated from /repo", dict(log=log), no_input=True)
+        return
+    ok, out = compile_obligation("C14_locks.v")
+    rep.extra["mapper_atomicity_obligations"] = "checked" if ok else "FAILED at " + failed_theorem("C14_locks.v", out)
+    if not ok:
+        thm = failed_theorem("C14_locks.v", out)
+        rep.violation("generated obligation %s no longer checks: a lookup and a reload are not atomic with respect to each other (%s)" % (thm or "in C14_locks.v", why),
+                      dict(failed_theorem=thm, theorem_file="coq/theories/Properties/C14_locks.v", coqc=out[-800:],
+                           unlocked_sites=unlocked_sites(["pkg/mapper.MetricMapper.Defaults", "pkg/mapper.MetricMapper.Mappings", "pkg/mapper.MetricMapper.FSM",
+                                                          "pkg/mapper.MetricMapper.doFSM", "pkg/mapper.MetricMapper.doRegex", "pkg/mapper.MetricMapper.cache"], "MetricMapper.mutex")),
+                      no_input=True)
